@@ -45,6 +45,8 @@ struct CompSpec
 struct FileSpec
 {
     std::string path, dir, modelName;
+    int servedVersion = -1; // set by the reference resolver: which version of the file this is (a library model and the file on disk may differ)
+    std::string rawUrl, rawDir; // set by the reference resolver: the URL exactly as the importer spells it (base + href, not normalised) - that spelling is the library key
     std::vector<UnitsSpec> units;
     std::vector<CompSpec> comps;
     bool groupImports = false;
@@ -172,6 +174,7 @@ public:
     std::vector<std::unique_ptr<std::streambuf>> buffers;
 
     int addVersion(const FileVersion &v, const std::string &path);
+    int registerVersion(const FileVersion &v); // a version that is not on disk (a model handed to an importer's library)
     const FileVersion *at(const std::string &normPath) const;
     std::streambuf *open(const std::string &url);
     void beginCall()
@@ -200,6 +203,8 @@ struct RefResult
 using View = std::function<const FileVersion *(const std::string &normPath)>;
 
 // Is every transitive import of the root model (given as a spec living at rootPath) satisfiable?
-RefResult referenceResolve(const FileSpec &root, const View &view, bool strict);
+// unitsFlawsOnlyAtRoot: a units with a parser error of its own makes an import unsatisfiable only when the client's own
+// model imports it (used to recognise the listed finding C07-K1: units imports of library models are not all visited)
+RefResult referenceResolve(const FileSpec &root, const View &view, bool strict, bool unitsFlawsOnlyAtRoot = false);
 
 } // namespace iw
